@@ -152,6 +152,34 @@ theorem bfeedS_eq (ctx : Ctx) (r : BRecv) (h : SlineOK r.line) (hcap : 1 ≤ r.l
         simp
       · simp only [feed]; rw [f2, e2]
 
+/-- the same for the legacy receiver of a session -/
+theorem blfeedS_eq (r : BLRecv) (h : SlineOK r.line) (hcap : 1 ≤ r.line.cap.toNat) (bs : List Byte) :
+    ∃ r', blfeedS r bs = some (r', (lfeed r.abs bs).2, (lfeedTrace r.abs bs).2) ∧
+      r'.abs = (lfeed r.abs bs).1 ∧ SlineOK r'.line ∧ r'.line.cap = r.line.cap := by
+  induction bs generalizing r with
+  | nil => exact ⟨r, rfl, rfl, h, rfl⟩
+  | cons c cs ih =>
+    obtain ⟨r1, e1, e2, e3, _, _⟩ := blnewchar_refines r h c
+    have ecap : r1.line.cap = r.line.cap := by
+      have := congrArg LRecv.cap e2
+      rw [lnewchar_cap] at this
+      exact BitVec.eq_of_toNat_eq this
+    by_cases hs : (lnewchar r.abs c).2 = NEWPACKAGE
+    · obtain ⟨r2, g1, g2, g3⟩ := lgetline_ok r1 e3 (by rw [ecap]; exact hcap)
+      have hc2 : r2.line.cap = r1.line.cap := by
+        have := congrArg LRecv.cap g2
+        exact BitVec.eq_of_toNat_eq this
+      obtain ⟨r3, f1, f2, f3, f4⟩ := ih r2 g3 (by rw [hc2, ecap]; exact hcap)
+      refine ⟨r3, ?_, ?_, f3, by rw [f4, hc2, ecap]⟩
+      · simp only [blfeedS, e1, hs, if_true, g1, Option.map_some, f1, g2, e2, lfeedTrace, lfeed]
+        simp
+      · simp only [lfeed]; rw [f2, g2, e2]
+    · obtain ⟨r3, f1, f2, f3, f4⟩ := ih r1 e3 (by rw [ecap]; exact hcap)
+      refine ⟨r3, ?_, ?_, f3, by rw [f4, ecap]⟩
+      · simp only [blfeedS, e1, hs, if_false, f1, e2, lfeedTrace, lfeed]
+        simp
+      · simp only [lfeed]; rw [f2, e2]
+
 /-- one encoder step of a session -/
 theorem sess_enc (s : Sess) (pieces : List (List Byte))
     (hfit : (gstuffingV s.ctx pieces).length ≤ s.out.length) :
